@@ -14,6 +14,7 @@ package main
 //            `arp --live` (de-duplication on) one per host, at its first sighting, over several passes.
 
 import (
+	"net/http"
 	"sort"
 	"os/exec"
 	"runtime"
@@ -223,6 +224,45 @@ func e2eSigintComponent(r *hx.Run) {
 			s.class = strings.Join(f.words, " ") + "/" + link + "/" + map[bool]string{true: "early", false: "mid"}[early] + "/" + map[bool]string{true: "json", false: "text"}[asJSON] + map[bool]string{true: "/slowrate", false: ""}[slow] + listMode
 			runs = append(runs, s)
 		}
+	}
+
+	// docker daemons that answer /_ping and /info and then say nothing on /version: the probe's last, best-effort
+	// request is the one in flight when the signal arrives; a cancelled scan does not wait for it (`-t 30s`)
+	nStall := 2
+	if r.Tier == "thorough" {
+		nStall = 6
+	}
+	for i := 0; i < nStall; i++ {
+		s := &sigRun{form: []string{"docker"}, kind: "app"}
+		base := uint32(127<<24) | uint32(201+rng.Intn(40))<<16 | uint32(i)<<8
+		port := 20000 + rng.Intn(20000)
+		for h := 1; h <= 6; h++ {
+			l, err := net.Listen("tcp4", fmt.Sprintf("%s:%d", v4Text(base|uint32(h)), port))
+			if err != nil {
+				continue
+			}
+			s.listens = append(s.listens, l)
+			srv := &http.Server{Handler: http.HandlerFunc(func(w http.ResponseWriter, q *http.Request) {
+				switch {
+				case strings.HasSuffix(q.URL.Path, "/_ping"):
+					w.Header().Set("API-Version", "1.41")
+					w.Write([]byte("OK"))
+				case strings.HasSuffix(q.URL.Path, "/info"):
+					w.Header().Set("Content-Type", "application/json")
+					w.Write([]byte(`{"ID":"stall","Name":"stall"}`))
+				default: // /version: silence
+					select {
+					case <-q.Context().Done():
+					case <-time.After(40 * time.Second):
+					}
+				}
+			})}
+			go srv.Serve(l)
+		}
+		s.args = []string{"docker", "--json", "-p", fmt.Sprint(port), "-w", fmt.Sprint(2 + rng.Intn(6)), "-t", "30s", v4Text(base) + "/29"}
+		s.delay = time.Duration(500+rng.Intn(500)) * time.Millisecond
+		s.class = "docker/lo/mid/json/version-stalls"
+		runs = append(runs, s)
 	}
 
 	// a responder: every probe of the answering forms gets its reply (SYN -> SYN-ACK, other TCP -> RST, echo -> echo
